@@ -6,12 +6,19 @@
 package simhook
 
 import (
+	"context"
 	"io"
 	"os"
 )
 
 // Yield marks a point where the simulator may park the calling goroutine.
 func Yield(site string, id int64) {}
+
+// TagContext lets the simulator tell apart the goroutines working for different sources.
+func TagContext(ctx context.Context, tag string) context.Context { return ctx }
+
+// YieldCtx is Yield for code that works on behalf of a tagged context.
+func YieldCtx(ctx context.Context, site string, id int64) {}
 
 // WrapFile lets the simulator interpose a simulated disk on a local file.
 // A nil result means "use the file as is".
